@@ -1149,6 +1149,28 @@ MUTANTS = [
          old="        let key = unsafe { &tail_ptr.as_ref().key };\n        let (_, region) = self.map.get_mut(key).unwrap();\n        *region = to_region;\n",
          new="        let key = unsafe { &tail_ptr.as_ref().key };\n        let _ = self.map.get_mut(key).unwrap();\n",
          expect="C16.e/lru/region-counters-and-tags-follow-list-moves"),
+    dict(id="C02.d-occupied-lock-entry-ignored", prop="C02", file=CG + "query_lock_manager.rs",
+         old="                occupied_entry.get().clone()", new="                { let _ = occupied_entry.get(); lock_instance }",
+         expect="C02.d/lock-instance-cloned-under-entry"),
+    dict(id="C02.d-lock-guard-without-the-arc", prop="C02", file=CG + "query_lock_manager.rs",
+         old="        let guard = lock_instance.0.clone().write_owned().await;", new="        let guard = Arc::new(RwLock::new(())).write_owned().await;\n        let _ = &lock_instance;",
+         expect="C02.d/QueryLockManager::acquire_exclusive_lock/locks-table-instance"),
+    dict(id="C16.e-lru-length-taken-off-the-destination-region", prop="C16", file=ST + "tiny_lfu/lru.rs",
+         old="""        self.list.unlink(*node_ptr, *region);
+        self.list.push_head(*node_ptr, new_region);
+
+        self.list.lens[new_region as usize] += 1;
+        self.list.lens[*region as usize] -= 1;
+
+        *region = new_region;""",
+         new="""        let old_region = std::mem::replace(region, new_region);
+
+        self.list.unlink(*node_ptr, old_region);
+        self.list.push_head(*node_ptr, new_region);
+
+        self.list.lens[new_region as usize] += 1;
+        self.list.lens[*region as usize] -= 1;""",
+         expect="C16.e/lru/region-counters-and-tags-follow-list-moves"),
     # ------------------------------------------------------------------ C09.f (D5)
     dict(id="C09.f-D5-fold-heap-in-arbitrary-order", prop="C09", file=ST + "key_of_set_map/cache.rs",
          old="""        let mut ordered = log.iter().collect::<Vec<_>>();
